@@ -964,7 +964,7 @@ int _vnacal_new_solve_auto(vnacal_new_solve_state_t *vnssp,
 	    if (determinant == 0.0 || !isnormal(cabs(determinant))) {
 		_vnacal_error(vcp, VNAERR_MATH, "vnacal_new_solve: "
 			"singular linear system");
-		return -1;
+		goto out;
 	    }
 	}
 #ifdef DEBUG
